@@ -241,6 +241,7 @@ func TestC11SeqECC(t *testing.T) {
 		snaps := m.takeSnapshots()
 		t.Run(m.name, func(t *testing.T) {
 			vlib.Check(t, vlib.N(160, 1200)/mm.div, func(t *rapid.T) { m.run(t, snaps) })
+			m.decodeSweep(t)
 		})
 	}
 }
